@@ -387,6 +387,7 @@ package mapping
 //@   serves C19 C09 C13
 //@   ensures nil: m == nil ==> result == nil && result1 != nil
 //@   ensures refuse: m != nil && (m.Gamma <= 1.0 || !(m.Interpolation == sketchpb.IndexMapping_NONE || m.Interpolation == sketchpb.IndexMapping_LINEAR || m.Interpolation == sketchpb.IndexMapping_CUBIC)) ==> result1 != nil
+//@   ensures accept: m != nil && m.Gamma > 1.0 && (m.Interpolation == sketchpb.IndexMapping_NONE || m.Interpolation == sketchpb.IndexMapping_LINEAR || m.Interpolation == sketchpb.IndexMapping_CUBIC) ==> result1 == nil
 //@   ensures build: m != nil && result1 == nil ==> result != nil && (MRange(result) ==> MapOK(result)) && MGamma(result) == m.Gamma && MOffset(result) == m.IndexOffset
 //@   ensures kind: m != nil && result1 == nil ==> (m.Interpolation == sketchpb.IndexMapping_NONE ==> is(result, *LogarithmicMapping)) && (m.Interpolation == sketchpb.IndexMapping_LINEAR ==> is(result, *LinearlyInterpolatedMapping)) && (m.Interpolation == sketchpb.IndexMapping_CUBIC ==> is(result, *CubicallyInterpolatedMapping))
 
